@@ -81,6 +81,9 @@ pub(super) enum State<'a, 'p> {
         cond_span: SpanId,
         msg_expr: Option<(&'p ir::Expr<'p>, GcView<ThunkEnv<'p>>)>,
     },
+    // Marks the end of the assertions of an object. While it is in the stack,
+    // the assertions of the object have not been fully checked yet.
+    ObjectAssertsEnd(GcView<ObjectData<'p>>),
     AssertMsg {
         assert_span: SpanId,
     },
